@@ -293,6 +293,6 @@ def check(ctx):
 
 def replay(ctx, data):
     lean = {"obligations": 0, "discharged": 0, "broken": [], "theorems": [], "cmds": []}
-    core.sh("lake build evodrv", cwd=core.LEAN)
+    core.sh("lake build drv_C05", cwd=core.LEAN)
     evaluate(ctx, [data["case"]])
     return core.finish_replay(ctx)
